@@ -1742,22 +1742,17 @@ class Engine:
         return [(s, Ref("bound", (base, attr), attr))]
 
     # calls -----------------------------------------------------------------
-    def _all_any(self, fr, e, s):
-        """all / any / sum over a generator expression or list comprehension whose iterables have a statically known
-        length (tuples, constant ranges, enumerate / zip / slices of those): unrolled, with several `for` clauses and
-        `if` filters (a filter whose outcome is not decided by the facts splits the state)"""
-        if not (isinstance(e.func, ast.Name) and e.func.id in ("all", "any", "sum") and len(e.args) == 1 and not e.keywords
-                and isinstance(e.args[0], (ast.GeneratorExp, ast.ListComp)) and e.func.id not in s.env):
-            return None
-        comp = e.args[0]
-        kind = e.func.id
+    def _unroll_comp(self, fr, comp, s, as_truth=False):
+        """element values of a comprehension / generator expression whose iterables have a statically known length
+        (tuples, constant ranges, enumerate / zip / islice / slices of those), with several `for` clauses and `if`
+        filters (an undecided filter splits the state).  -> list of (state, [values]) or None when not unrollable"""
 
         class _NotConcrete(Exception):
             pass
 
         def unroll(level, st, acc):
             if level == len(comp.generators):
-                return [(s2, acc + [v if kind == "sum" else self.truth(v)]) for s2, v in self.eval(fr, comp.elt, st)]
+                return [(s2, acc + [self.truth(v) if as_truth else v]) for s2, v in self.eval(fr, comp.elt, st)]
             gen = comp.generators[level]
             results = []
             for s1, it in self.eval(fr, gen.iter, st):
@@ -1787,8 +1782,36 @@ class Engine:
                 results.extend(cur)
             return results
         try:
-            accs = unroll(0, s, [])
+            return unroll(0, s, [])
         except _NotConcrete:
+            return None
+
+    def e_ListComp(self, fr, e, s):
+        if not isinstance(e.elt, ast.AST) or any(g.is_async for g in e.generators):
+            return [(s, Unk(self.fresh("expr:ListComp")))]
+        saved = {g.target.id: s.env.get(g.target.id) for g in e.generators if isinstance(g.target, ast.Name)}
+        accs = self._unroll_comp(fr, e, s)
+        if accs is None:
+            return [(s, Unk(self.fresh("expr:ListComp")))]
+        out = []
+        for s2, vals in accs:
+            # comprehension variables do not leak
+            for k, v in saved.items():
+                if v is None:
+                    s2.env.pop(k, None)
+                else:
+                    s2.env[k] = v
+            out.append((s2, Tup(vals, "list")))
+        return out
+
+    def _all_any(self, fr, e, s):
+        """all / any / sum over a generator expression or list comprehension: unrolled (see _unroll_comp)"""
+        if not (isinstance(e.func, ast.Name) and e.func.id in ("all", "any", "sum") and len(e.args) == 1 and not e.keywords
+                and isinstance(e.args[0], (ast.GeneratorExp, ast.ListComp)) and e.func.id not in s.env):
+            return None
+        kind = e.func.id
+        accs = self._unroll_comp(fr, e.args[0], s, as_truth=(kind != "sum"))
+        if accs is None:
             return None
         results = []
         for s2, fs in accs:
@@ -2247,6 +2270,24 @@ class Engine:
                 start = int(sv.lin.k) if isinstance(sv, Num) and sv.lin.is_const() else None
             if start is not None:
                 return [(s, Tup([Tup([Num(Lin.const(i + start)), x]) for i, x in enumerate(args[0].items)]))]
+        if short == "itertools.islice" and len(args) == 2 and isinstance(args[1], Num) and args[1].lin.is_const() \
+                and 0 <= args[1].lin.k <= 8 and not isinstance(args[0], Tup):
+            # up to n items taken with next(): the list of those that were there
+            END = Con("$islice-end$")
+            states, results = [(s, [])], []
+            for _ in range(int(args[1].lin.k)):
+                nxt = []
+                for st_, items in states:
+                    for s2, v in self.call_ext(fr, e, "builtins.next", [args[0], END], {}, st_):
+                        if isinstance(v, Con) and v.value == END.value:
+                            results.append((s2, items))
+                        else:
+                            nxt.append((s2, items + [v]))
+                states = nxt
+            results.extend(states)
+            return [(s2, Tup(items, "list")) for s2, items in results]
+        if short == "itertools.islice" and len(args) == 2 and isinstance(args[0], Tup) and isinstance(args[1], Num) and args[1].lin.is_const():
+            return [(s, Tup(args[0].items[:int(args[1].lin.k)], "list"))]
         if short == "zip" and args and all(isinstance(a, Tup) for a in args) and not kwargs:
             return [(s, Tup([Tup(list(xs)) for xs in zip(*[a.items for a in args])]))]
         if short == "itertools.combinations" and len(args) == 2 and isinstance(args[0], Tup) and isinstance(args[1], Num) \
